@@ -28,6 +28,18 @@ OBLIGATIONS.append(dict(name="writer_finish_fail_stop", harness="harness/C14_fin
     fp_map={'read_at': ['vp_file_read_at'], 'write_at': ['vp_file_write_at'], 'get_size': ['vp_file_get_size'], 'truncate': ['vp_file_truncate']}, reach=["finished", "failed"],
     functions=["sqfs_writer_finish, padd_sqfs (lib/common/src/writer/finish.c)", "sqfs_super_write (write_super.c)"],
     bound="every sub-writer performs 0..2 appends and may fail, every file write (also the superblock and the padding) may fail, exportable/no_xattr symbolic"))
+def mains(mode, name, incs, fp, reach, bound, unwind=6):
+    return dict(name=name, harness="harness/C13_mains.c", sources=[], included_sources=incs, incdirs=["bin/tar2sqfs/src", "bin/gensquashfs/src"],
+        defines=dict(MODE=mode), unwind=unwind, tiers=["quick", "thorough"], timeout=300, fp_map=fp, reach=reach,
+        functions=[", ".join(incs)], bound=bound)
+OBLIGATIONS += [
+    mains(1, "tar2sqfs_exit_protocol", ["bin/tar2sqfs/src/tar2sqfs.c"], {"destroy": ["dtor_tar", "dtor_in"]}, ["success", "failure"],
+          "each of the 6 steps of main (stdin wrapper, tar reader, writer init, process_tarball, post process, finish) may fail"),
+    mains(2, "gensquashfs_exit_protocol", ["bin/gensquashfs/src/mkfs.c"], {"destroy": ["dtor_sort", "dtor_dir", "dtor_fin", "dtor_fout"], "flush": ["flush_stub"]}, ["success", "failure"],
+          "every step of main may fail; selinux / xattr map / sort file / pack file options symbolic (empty file list)"),
+    mains(3, "gensquashfs_pack_file_fail_stop", ["bin/gensquashfs/src/mkfs.c"], {"destroy": ["dtor_fin", "dtor_fout"], "flush": ["flush_stub"]}, ["success", "failure"],
+          "1..2 files, each of open / size / stream / block stream / up to 3 splices / flush may fail; input path given or reconstructed"),
+]
 FPIO = {'read_at': ['vp_file_read_at'], 'write_at': ['vp_file_write_at'], 'truncate': ['vp_file_truncate'], 'get_size': ['vp_file_get_size'], 'do_block': ['cw_do_block', 'vp_cmp_do_block']}
 OBLIGATIONS.append(dict(name="blockwriter_io_failure_h1_nb1", harness="harness/C08_blockwriter.c", sources=["lib/util/src/file_cmp.c", "lib/util/src/array.c"],
     included_sources=["lib/sqfs/src/block_writer.c"], defines=dict(H=1, NB=1, SZ=2, MODE=3), unwind=10, tiers=["quick", "thorough"], timeout=300, fp_map=FPIO,
